@@ -5,6 +5,7 @@ import (
 	"fmt"
 	"io"
 	"net/http"
+	"net/url"
 	"regexp"
 	"strings"
 	"sync"
@@ -17,10 +18,10 @@ import (
 
 // ---- C10: the static shortcut is unobservable (engine B over histories) ----
 
-var c10Routes = []string{"/s", "/s/", "/s/t", "/s/?t", "/{p}", "/s/{p}", "/{m: **}", "/q/?r", "/", "/{p}/t", "/{m: **}/t"}
+var c10Routes = []string{"/s", "/s/", "/s/t", "/s/?t", "/{p}", "/s/{p}", "/{m: **}", "/q/?r", "/", "/{p}/t", "/{m: **}/t", "/s%2Ft"}
 var c10RegMethods = []string{"GET", "POST", "*", "GET,POST"}
 var c10HdrSets = [][]string{{}, {"X-K", "v"}}
-var c10Paths = []string{"/s", "//s", "/s/", "/s//", "/s/t", "/s/?t", "/q/?r", "/q", "/q/r", "/%73", "s", "", "/", "/s/t/", "/q/", "/{p}/t", "/{p}", "/s/{p}", "/{m: **}", "/x/t", "/{m: **}/t", "/x/y/t", "/S", "/s/T", "/s/u"}
+var c10Paths = []string{"/s", "//s", "/s/", "/s//", "/s/t", "/s/?t", "/q/?r", "/q", "/q/r", "/%73", "s", "", "/", "/s/t/", "/q/", "/{p}/t", "/{p}", "/s/{p}", "/{m: **}", "/x/t", "/{m: **}/t", "/x/y/t", "/S", "/s/T", "/s/u", "/s%2Ft", "/s%252Ft"}
 
 // c10ProbeMethods: two registered methods, a lower-case spelling of one (an unknown method for the router, as
 // any other token) and an unknown token
@@ -165,8 +166,26 @@ type c10Case struct {
 	Interleaved bool              `json:"probe_set_served_after_every_operation,omitempty"`
 }
 
+// c10One serves path as given (URL.Path set directly) and, when path also reads as a request line with
+// percent-escapes in it, the request a server builds from that line (decoded path plus the spelling as sent).
 func c10One(w *c10World, method, path string, hdr map[string]string) (bad, outcome string) {
-	req := newReq(method, path)
+	bad, outcome = c10OneReq(w, method, path, newReq(method, path), hdr)
+	if bad != "" || !strings.Contains(path, "%") || !strings.HasPrefix(path, "/") {
+		return bad, outcome
+	}
+	u, err := url.ParseRequestURI(path)
+	if err != nil || u.RawQuery != "" || u.ForceQuery {
+		return bad, outcome
+	}
+	req := newReq(method, u.Path)
+	req.URL, req.RequestURI = u, path
+	if b, _ := c10OneReq(w, method, u.Path, req, hdr); b != "" {
+		return "as a request line: " + b, "differs"
+	}
+	return bad, outcome
+}
+
+func c10OneReq(w *c10World, method, path string, req *http.Request, hdr map[string]string) (bad, outcome string) {
 	for k, v := range hdr {
 		req.Header[http.CanonicalHeaderKey(k)] = []string{v}
 	}
